@@ -392,7 +392,7 @@ PROPS = {
     },
     "C02": {
         "harness": "c02", "driver": "c02",
-        "lean_modules": ["BleveModel.Props.C02", "BleveModel.Props.BoolSearcher", "BleveModel.Props.ConjSearcher", "BleveModel.Props.DisjSearcher", "BleveModel.Props.BoolLink", "BleveModel.Props.Compose"],
+        "lean_modules": ["BleveModel.Props.C02", "BleveModel.Props.BoolSearcher", "BleveModel.Props.ConjSearcher", "BleveModel.Props.DisjSearcher", "BleveModel.Props.BoolLink", "BleveModel.Props.Compose", "BleveModel.Props.Phrase"],
         "rule": ("in-memory scorch and upsidedown indexes of 4-14 documents over an 8-word vocabulary (two multi-valued text fields with "
                  "term vectors, numeric, boolean and date fields; several batches, updates and deletes), random query trees to depth 3 "
                  "over the whole family (term, match and/or, phrase, match-phrase, prefix, wildcard, regexp, fuzzy, term/numeric/date "
@@ -404,7 +404,8 @@ PROPS = {
                                      "harness-side oracles for wildcard (glob->regexp), regexp (Go regexp, anchored) and fuzzy (OSA distance with prefix) acceptance over the vocabulary",
                                      "zapx/vellum/roaring postings and dictionaries"],
         "assumptions": ["boost 0 and BooleanQuery.Must set to a non-conjunction through the Go API are excluded points", LEVEL_NOTE],
-        "floors": {"search/scorch/plain": 100, "search/upsidedown/plain": 100, "search/scorch/noscore": 40},
+        "floors": {"search/scorch/plain": 100, "search/upsidedown/plain": 100, "search/scorch/noscore": 40,
+                   "phrase-paths/exact": 300, "phrase-paths/general": 300},
         "thorough_shards": 16,
     },
     "C08": {
